@@ -76,6 +76,12 @@ def composite_pieces():
     comp.append(Piece('symengine/pow.cpp', r'int Pow::compare\(const Basic &o\) const', rules=CTOK))
     comp.append(Piece('symengine/sets.cpp', r'int Interval::compare\(const Basic &s\) const',
                       rules=[R('auto temp = start_->__cmp__', 'int temp = start_->__cmp__', n=1, why="auto -> int (the return type of __cmp__)")] + CTOK))
+    for cls, f in (('Complement', 'sets.cpp'), ('Contains', 'logic.cpp')):
+        comp.append(Piece('symengine/' + f, r'hash_t %s::__hash__\(\) const' % cls, rules=CTOK))
+        comp.append(Piece('symengine/' + f, r'bool %s::__eq__\(const Basic &o\) const' % cls, rules=CTOK))
+        comp.append(Piece('symengine/' + f, r'int %s::compare\(const Basic &o\) const' % cls, rules=CTOK))
+    comp.append(Piece('symengine/logic.cpp', r'RCP<const Basic> Contains::get_expr\(\) const', rules=CTOK))
+    comp.append(Piece('symengine/logic.cpp', r'RCP<const Set> Contains::get_set\(\) const', rules=[R('RCP<const Set>', 'RCPBasic', n=1, why="RCP<const Set> -> raw pointer typedef")] + CTOK))
     comp.append(Piece('symengine/add.cpp', r'hash_t Add::__hash__\(\) const',
                       rules=[R('for (const auto &p : dict_) {', 'for (unsigned p__k = 0; p__k < dict_.size(); p__k++) { umap_pair p = dict_.at(p__k);', n=1,
                                why="range-for over the unordered term dictionary -> index loop over the stub (iteration order is an arbitrary permutation), body verbatim")] + CTOK))
@@ -92,7 +98,11 @@ def composite_pieces():
     hc.insert(2, Piece('symengine/basic-inl.h', integral,
                        rules=[R(integral, 'inline void hash_combine_impl(hash_t &seed, const bool &v)', n=1, regex=True, why="SFINAE template header -> the instantiation T=bool (Interval flags)")],
                        name="hash_combine_impl<bool>"))
-    return {'hc.inc': hc, 'hcb.inc': hcb, 'free.inc': free, 'twoarg_inline.inc': two, 'onearg_inline.inc': one, 'comp.inc': comp}
+    ucmp = r'template <typename T, typename U,\s*typename = enable_if_t<std::is_base_of<Basic, T>::value\s*and std::is_base_of<Basic, U>::value>>\s*inline int unified_compare\(const RCP<const T> &a, const RCP<const U> &b\)'
+    ueq = r'template <typename T, typename U,\s*typename = enable_if_t<std::is_base_of<Basic, T>::value\s*and std::is_base_of<Basic, U>::value>>\s*inline bool unified_eq\(const RCP<const T> &a, const RCP<const U> &b\)'
+    unified = [Piece('symengine/dict.h', ucmp, rules=[R(ucmp, 'inline int unified_compare(const RCPBasic &a, const RCPBasic &b)', n=1, regex=True, why="SFINAE template header -> the instantiation T=U=Basic")], name='unified_compare<RCP>'),
+               Piece('symengine/dict.h', ueq, rules=[R(ueq, 'inline bool unified_eq(const RCPBasic &a, const RCPBasic &b)', n=1, regex=True, why="SFINAE template header -> the instantiation T=U=Basic")], name='unified_eq<RCP>')]
+    return {'unified.inc': unified, 'hc.inc': hc, 'hcb.inc': hcb, 'free.inc': free, 'twoarg_inline.inc': two, 'onearg_inline.inc': one, 'comp.inc': comp}
 
 COMP_TRUSTED = [
     "children of a composite are abstract objects obeying the contract C01/C02 state for every expression (eq <=> equal rank; equal rank => equal hash; __cmp__ = order of ranks)",
@@ -102,7 +112,7 @@ COMP_TRUSTED = [
 
 def composite_unit(prop, Unit, Entry):
     ents = []
-    for cls, nm in ((1, 'Pow'), (2, 'Interval'), (3, 'TwoArgBasic'), (4, 'OneArgFunction'), (5, 'Add')):
+    for cls, nm in ((1, 'Pow'), (2, 'Interval'), (3, 'TwoArgBasic'), (4, 'OneArgFunction'), (5, 'Add'), (6, 'Complement'), (7, 'Contains')):
         h = 'h_comp_c01' if prop == 'C01' else 'h_comp_c02'
         if prop == 'C02' and cls == 5:
             continue
